@@ -3,6 +3,7 @@ import BeffVerif.Props.C05Flat
 import BeffVerif.Props.C05Tuple
 import BeffVerif.Props.C05Union
 import BeffVerif.Props.C05ListUnion
+import BeffVerif.Props.C05UnionSub
 open BeffVerif.C05
 #print axioms litInter_has
 #print axioms litUnion_has
@@ -27,3 +28,5 @@ open BeffVerif.C05
 #print axioms BeffVerif.C05Union.keys_fold_gen
 #print axioms BeffVerif.C05ListUnion.fixed_many
 #print axioms BeffVerif.C05ListUnion.sem_step_l
+#print axioms BeffVerif.C05Union3.flat_object_vs_union_iff_inclusion
+#print axioms BeffVerif.C05Union3.diff_union_sorted
